@@ -177,6 +177,11 @@ func (t *TxWatcher) AddWaitForConfirmationTx(swapId string, txId string, _ uint3
 		// could lead to stale swaps that might not resolve.
 		log.Infof("[TxWatcher] Swap: %s: Could not subscribe tx watcher for tx %s, %v", swapId, txId, err)
 		cancel()
+		// Nothing is watching: a later registration must not be taken
+		// for a re-subscription.
+		t.Lock()
+		delete(t.confirmationWatchers, swapId)
+		t.Unlock()
 		return
 	}
 
